@@ -35,8 +35,8 @@ Section Main.
       is_order order (List.length (ga_groups ga)) -> is_order order' (List.length (ga_groups ga)) ->
       is_order uorder (List.length (ma_univ (ga_action ga))) -> is_order uorder' (List.length (ma_univ (ga_action ga))) ->
       exists s1 s2,
-        apply_op_o d eps ga (Some objs) allow false order uorder s = Ok s1 /\
-        apply_op_o d eps ga (Some objs) allow false order' uorder' s = Ok s2 /\
+        apply_op d eps ga (Some objs) allow false order uorder s = Ok s1 /\
+        apply_op d eps ga (Some objs) allow false order' uorder' s = Ok s2 /\
         state_eq s1 s2.
   Proof.
     intros ga objs s allow b Happ Hb Hev Hc order order' uorder uorder' Ho Ho' Hu Hu'.
@@ -75,7 +75,7 @@ Section Main.
       is_applicable d eps (Some objs) ga s = Ok b -> (b = true \/ allow = true) ->
       consistent G = true ->
       forall order uorder, is_order order (List.length (ga_groups ga)) -> is_order uorder (List.length (ma_univ a)) ->
-      exists s', apply_op_o d eps ga (Some objs) allow false order uorder s = Ok s' /\
+      exists s', apply_op d eps ga (Some objs) allow false order uorder s = Ok s' /\
                  state_eq s' (successor eps (d_types d) objs A args s).
     Proof.
       intros allow b Happ Hb Hc order uorder Ho Hu.
@@ -92,8 +92,8 @@ Section Main.
         is_order order (List.length (ga_groups ga)) -> Permutation order order' ->
         is_order uorder (List.length (ma_univ a)) -> Permutation uorder uorder' ->
         exists s1 s2,
-          apply_op_o d eps ga (Some objs) allow false order uorder s = Ok s1 /\
-          apply_op_o d eps ga (Some objs) allow false order' uorder' s = Ok s2 /\
+          apply_op d eps ga (Some objs) allow false order uorder s = Ok s1 /\
+          apply_op d eps ga (Some objs) allow false order' uorder' s = Ok s2 /\
           state_eq s1 s2.
     Proof.
       intros allow b Happ Hb Hc order order' uorder uorder' Ho HP Hu HPu.
@@ -115,7 +115,7 @@ Section Main.
       Hypothesis Hc : consistent G = true.
       Hypothesis Ho : is_order order (List.length (ga_groups ga)).
       Hypothesis Hu : is_order uorder (List.length (ma_univ a)).
-      Hypothesis Hret : apply_op_o d eps ga (Some objs) allow false order uorder s = Ok s'.
+      Hypothesis Hret : apply_op d eps ga (Some objs) allow false order uorder s = Ok s'.
 
       Lemma returned_eq : state_eq s' (succ s G).
       Proof.
@@ -183,6 +183,75 @@ Section Main.
   (* ---------- refusal ---------- *)
   Theorem refused : forall ga objs s order uorder,
     is_applicable d eps (Some objs) ga s = Ok false ->
-    apply_op_o d eps ga (Some objs) false false order uorder s = Err EValue.
-  Proof. intros ga objs s order uorder H. unfold apply_op_o. rewrite H. reflexivity. Qed.
+    apply_op d eps ga (Some objs) false false order uorder s = Err EValue.
+  Proof. intros ga objs s order uorder H. unfold apply_op. rewrite H. reflexivity. Qed.
 End Main.
+
+(* ---------- "evaluates" read on a run: if the call returns in ONE visiting order, every group can be visited ---------- *)
+Lemma mapM_ok_each : forall (A B : Type) (F : A -> result B) l ys,
+  mapM F l = Ok ys -> forall x, In x l -> is_ok (F x) = true.
+Proof.
+  intros A B F l. induction l as [|y r IH]; intros ys H x Hin; [contradiction|].
+  simpl in H. inv_bind H b Hb. inv_bind H bs Hbs. destruct Hin as [E|Hin].
+  - subst. rewrite Hb. reflexivity.
+  - eapply IH; eauto.
+Qed.
+
+Section RunOk.
+  Variable d : mdomain.
+  Variable eps : float.
+  Variable objs : objects.
+
+  Lemma apply_universal_ok_each : forall ga uorder prev cur s',
+    is_order uorder (List.length (ma_univ (ga_action ga))) ->
+    apply_universal d eps ga (Some objs) uorder prev cur = Ok s' ->
+    forall o ue, In o objs -> In ue (ma_univ (ga_action ga)) -> is_ok (fire_univ d eps objs (ga_pm ga) prev o ue) = true.
+  Proof.
+    intros ga uorder prev cur s' Hu H o ue Ho Hue. unfold apply_universal in H.
+    set (L := reorder (ma_univ (ga_action ga)) uorder) in *.
+    rewrite (foldM_fire _ (fun o => do gss <- mapM (fire_univ d eps objs (ga_pm ga) prev o) L; Ok (List.concat gss))) in H.
+    - inv_bind H gss Hgss. pose proof (mapM_ok_each _ _ _ _ _ Hgss o Ho) as Hok. cbv beta in Hok.
+      destruct (mapM (fire_univ d eps objs (ga_pm ga) prev o) L) as [ys|k] eqn:E; [|simpl in Hok; discriminate].
+      eapply mapM_ok_each; [exact E|]. unfold L. eapply Permutation_in; [apply Permutation_sym; apply reorder_perm; exact Hu | exact Hue].
+    - intros cur1 o'. rewrite (foldM_fire _ (fire_univ d eps objs (ga_pm ga) prev o')).
+      + destruct (mapM (fire_univ d eps objs (ga_pm ga) prev o') L); reflexivity.
+      + intros cur2 ue'. unfold fire_univ. destruct (is_sub_type (d_types d) (snd o') (ue_ty ue')); [|reflexivity].
+        destruct (ground_group d (dset (ga_pm ga) (ue_var ue') (fst o')) (Some (ce_ante (ue_ce ue')))
+                    (ce_disc (ue_ce ue')) (ce_num (ue_ce ue'))) as [g|k]; simpl; [|reflexivity].
+        apply step_fire.
+  Qed.
+
+  Theorem run_ok_evaluates : forall ga allow order uorder s s',
+    is_order order (List.length (ga_groups ga)) -> is_order uorder (List.length (ma_univ (ga_action ga))) ->
+    apply_op d eps ga (Some objs) allow false order uorder s = Ok s' ->
+    evaluates d eps objs ga s /\
+    exists b, is_applicable d eps (Some objs) ga s = Ok b /\ (b = true \/ allow = true).
+  Proof.
+    intros ga allow order uorder s s' Ho Hu H. unfold apply_op in H.
+    destruct (is_applicable d eps (Some objs) ga s) as [b|k] eqn:Happ; [|discriminate]. cbn [bind] in H.
+    destruct (negb b && negb allow) eqn:Hgo; [discriminate|].
+    rewrite (foldM_fire _ (fire d eps objs s)) in H by (intros cur g; apply step_fire).
+    destruct (mapM (fire d eps objs s) (reorder (ga_groups ga) order)) as [gss|k] eqn:E; [|discriminate].
+    cbn [bind] in H. split; [split|].
+    - intros g Hg. eapply mapM_ok_each; [exact E|].
+      eapply Permutation_in; [apply Permutation_sym; apply reorder_perm; exact Ho | exact Hg].
+    - eapply apply_universal_ok_each; eauto.
+    - exists b. split; [reflexivity|]. destruct b; [left; reflexivity|]. destruct allow; [right; reflexivity | discriminate].
+  Qed.
+
+  (* order independence without the hypothesis "evaluates": one run that returns is enough *)
+  Theorem order_independent_run : forall ga allow order uorder s s1,
+    is_order order (List.length (ga_groups ga)) -> is_order uorder (List.length (ma_univ (ga_action ga))) ->
+    apply_op d eps ga (Some objs) allow false order uorder s = Ok s1 ->
+    consistent (canon_groups d eps objs ga s) = true ->
+    forall order' uorder',
+      is_order order' (List.length (ga_groups ga)) -> is_order uorder' (List.length (ma_univ (ga_action ga))) ->
+      exists s2, apply_op d eps ga (Some objs) allow false order' uorder' s = Ok s2 /\ state_eq s1 s2.
+  Proof.
+    intros ga allow order uorder s s1 Ho Hu Hrun Hc order' uorder' Ho' Hu'.
+    destruct (run_ok_evaluates _ _ _ _ _ _ Ho Hu Hrun) as [Hev [b [Happ Hb]]].
+    destruct (order_independent_model d eps ga objs s allow b Happ Hb Hev Hc order order' uorder uorder' Ho Ho' Hu Hu')
+      as [t1 [t2 [E1 [E2 E3]]]].
+    rewrite Hrun in E1. inversion E1; subst. exists t2. split; assumption.
+  Qed.
+End RunOk.
